@@ -43,7 +43,7 @@ ASSUMPTIONS = [
     "the ALS fan-out over row chunks (TorchScript fork) computes the same per-row function as the sequential path (rows are independent in the model; >50-row runs are in the thorough tier)",
     "numba compiles the FunkSVD loop without floating-point contraction or reassociation (checked: features reproduce bit for bit)",
 ]
-RULE = ("structured generator: 2-9 users x 2-10 items (12x12 in the thorough tier; every 75th case 52-58 users so that explicit ALS takes its fork/wait fan-out), half-star ratings, optional users/items without data, "
+RULE = ("structured generator: 2-9 users x 2-10 items (12x12 in the thorough tier; every 60th case 52-58 users so that explicit ALS takes its fork/wait fan-out), half-star ratings, optional users/items without data, "
         "embedding size 1-4, 0-3 epochs, scalar or per-side regularisation (dyadic and non-dyadic), damping scalar or per entity, "
         "confidence weight, use_ratings, each user-embedding policy, float32 or float64 rating column, 3-5 scoring queries "
         "(known/unknown/no user; no/empty/known/partly-unknown/all-unknown history; known and unknown candidates); FunkSVD with 1-3 features, "
@@ -145,8 +145,8 @@ def gen_case(rng, tier, malformed=False, wide=False):
 
 
 def gen_cases(rng, tier):
-    n = 150 if tier == "quick" else 800
-    return [gen_case(rng.fork(k), tier, malformed=(k % 10 == 9), wide=(k % 75 == 74)) for k in range(n)]
+    n = 120 if tier == "quick" else 800
+    return [gen_case(rng.fork(k), tier, malformed=(k % 10 == 9), wide=(k % 60 == 59)) for k in range(n)]
 
 
 # ---------------------------------------------------------------------------------------------
